@@ -176,5 +176,5 @@ def generate(seed, n_random, systematic_nodes, max_nodes=80, max_depth=7, max_wi
         forest, _ = gen_forest(rng, budget, 0, max_depth, max_width)
         add(forest, rng.random() < 0.4, 1)
     body = "".join(fns)
-    body += "\npub fn run_all(h: &mut Harness) {\n" + "".join("    lit_%d(h);\n" % k for k in range(i)) + "}\n"
+    body += "\npub fn run_all(h: &mut Harness) {\n" + "".join("    guard(h, %d, lit_%d);\n" % (k, k) for k in range(i)) + "}\n"
     return body, index, n_sys
